@@ -18,6 +18,8 @@ Declined: the row-major bijection (offset's arithmetic), next_position carry log
 order -- stride and carry arithmetic over run-time extents. grid::clamped_sup_signed's unguarded get_unsafe is
 C01's open known finding.
 """
+import re
+
 from engine import facts as F
 from engine import load
 from engine import percoord as PC
@@ -45,6 +47,8 @@ def main(rep, tier, only):
     rep.rule("AT", "at_optional: some(ref(get_unsafe(pos))) of the same grid iff in_range(grid, pos); in_range = in_range_dim(size, pos)", floor=3)
     rep.rule("PROV", "cell provenance of map / apply / resize / fill", floor=5)
     rep.rule("RANGE-G", "range_dim is sup - min exactly under min_less_sup(min, sup), the null dimension otherwise", floor=3)
+    rep.rule("CARRY", "next_position: the step for dimension i compares component i of the position with component i of sup, rewinds it to "
+                      "component i of min and increments component i+1 -- one index used consistently (index agreement, not the arithmetic)", floor=3)
     rep.rule("STRIDE", "cell addresses are offset(pos, size) of the same grid whose storage they index", floor=3)
     for name, spec in SPECS.items():
         fns = db.fns(name)
@@ -200,6 +204,16 @@ def main(rep, tier, only):
             for p in full:
                 if any(b is False for a, b in p.decisions):
                     why = "the result is built although a size comparison failed"
+                # WHAT is compared: the dimension (size()) of every further grid with the first grid's, not a derived number
+                cmp = set()
+                for a, b in p.decisions:
+                    if isinstance(a, tuple) and a and a[0] == "ev":
+                        e = p.events[a[1] - 1]
+                        if e[0].split("<")[0].endswith("dim::operator=="):
+                            cmp.add(frozenset(sx.show(x) for x in e[1]))
+                for g in syms[2:]:
+                    if frozenset(("size(%s)" % g, "size(%s)" % syms[1])) not in cmp:
+                        why = "grid `%s` is used although its dimension (size()) is not compared with the first grid's: compared are %s" % (g, sorted(sorted(c) for c in cmp) or [sx.show(a) for a, b in p.decisions])
                 cl, rest = grid_ctor_closure(p.outcome[1])
                 if [sx.show(a) for a in rest] != ["size(%s)" % syms[1]]:
                     why = "the result does not have the first grid's size"
@@ -351,6 +365,67 @@ def main(rep, tier, only):
                 (rep.ok if ok else rep.fail)("STRIDE", key, u.loc(n.get("loc")), F.describe(fn)[:160],
                                              **({"how": "(X.begin(), ., X.size()) of the same X"} if ok else
                                                 {"why": "the iterator is built from storage `%s` and stride dimension `%s`: cells are addressed with the extents of something other than the grid that owns the storage" % (T.show(a0), T.show(a2))}))
+    # ---- CARRY: next_position's per-dimension step uses ONE index consistently
+    seen = set()
+    for fn in db.fns(G + "next_position"):
+        u = fn["_unit"]
+        N = PC.dims_of(fn)
+        if N in seen:
+            continue
+        seen.add(N)
+        lams = [x for x in F.walk(fn.get("body"), into_lambdas=False) if x.get("k") == "lambda"]
+        cur, mn, sp = (p_["name"] for p_ in fn["params"][:3])
+        why = None
+        nops = 0
+        for lam in lams:
+            for op in lam.get("ops", []):
+                idx = None
+                for ta in (op.get("targs") or []):
+                    m = re.match(r"^(\d+)U?L?$", str(ta))
+                    if m:
+                        idx = int(m.group(1))
+                if idx is None:
+                    why = "the per-dimension step is not instantiated by a dimension index"
+                    break
+                nops += 1
+                res = op["params"][-1]["name"]
+
+                def at_index(n):
+                    n = T.unwrap(u, n)
+                    if n is not None and n.get("k") == "call" and n.get("recv") is not None and not n.get("args"):
+                        short = (T.callee_qn(u, n) or "").split("::")[-1]
+                        if short in ("x", "y", "z", "w") and "math::vector::object" in (T.callee_qn(u, n) or ""):
+                            return ("xyzw".index(short), T.show(T.norm(u, n["recv"])))   # named accessors are at<0..3>
+                    if n is None or n.get("k") != "call" or (T.callee_qn(u, n) or "") != "fcppt::math::vector::at":
+                        return None
+                    d = T.callee_decl(u, n)
+                    m = re.match(r"^(\d+)", (d.get("targs") or ["?"])[0])
+                    return (int(m.group(1)) if m else None, T.show(T.norm(u, n["args"][0])))
+                ifs = [x for x in F.walk(op.get("body"), into_lambdas=False) if x.get("k") == "if"]
+                if len(ifs) != 1:
+                    why = "expected exactly one carry test per dimension"
+                    break
+                c = T.unwrap(u, ifs[0]["cond"])
+                ops_ = ([c.get("l"), c.get("r")] if c is not None and c.get("k") == "binop" else
+                        (([c["recv"]] if c.get("recv") is not None else []) + list(c.get("args", [])) if c is not None and c.get("k") == "call" else []))
+                sides = [at_index(x) for x in ops_]
+                if sides != [(idx, res), (idx, "%s.get()" % sp)] and sides != [(idx, "%s.get()" % sp), (idx, res)]:
+                    why = "dimension %d: the carry test compares %s, expected component %d of the position with component %d of sup" % (idx, sides, idx, idx)
+                    break
+                asg = [x for x in F.walk(ifs[0].get("then"), into_lambdas=False) if x.get("k") == "assign"]
+                inc = [x for x in F.walk(ifs[0].get("then"), into_lambdas=False) if x.get("k") == "unop" and x.get("op") == "++"]
+                if len(asg) != 1 or at_index(asg[0]["l"]) != (idx, res) or at_index(asg[0]["r"]) != (idx, "%s.get()" % mn):
+                    why = "dimension %d: on carry the component is rewound to %s, expected component %d of min" % (idx, T.show(T.norm(u, asg[0]["r"])) if asg else "nothing", idx)
+                    break
+                if len(inc) != 1 or at_index(inc[0]["e"]) != (idx + 1, res):
+                    why = "dimension %d: on carry component %d is not incremented exactly once" % (idx, idx + 1)
+                    break
+            if why:
+                break
+        if not why and N and nops != N - 1:
+            why = "%d per-dimension steps instantiated for a %d-dimensional position (expected %d)" % (nops, N, N - 1)
+        (rep.fail if why else rep.ok)("CARRY", "next_position|N=%s" % N, F.primary_site(fn), F.describe(fn)[:160],
+                                      **({"why": why} if why else {"how": "compare/rewind component i, increment component i+1", "detail": {"steps": nops}}))
     rep.extra["exhaustive_over_orders"] = True
     rep.explanation = ("Comparison clauses by abstract interpretation over weak orders with index coverage; at_optional / in_range by "
                        "decision table; cell provenance of map / apply / resize / fill by interpreting the per-position function with a "
